@@ -96,6 +96,104 @@ func c16(c *core.Ctx) {
 	var mu sync.Mutex
 	classes := map[string]int64{}
 	viol := func(sig, msg string, rp map[string]any) { c.Violation("C16:"+sig, msg, rp) }
+	checkList := func(names []string, dirs []string, local map[string]int64) {
+		rp := map[string]any{"names": names}
+		// ValidPath
+		want := refValid(names)
+		var got int
+		if p := catch(func() { got = p9p.ValidPath(names) }); p != "" {
+			viol("validpath-panic", fmt.Sprintf("ValidPath(%q) panicked: %s", names, p), rp)
+		} else if got != want {
+			viol("validpath", fmt.Sprintf("ValidPath(%q) = %d, want %d", names, got, want), rp)
+		}
+		local[fmt.Sprintf("valid/%d", want)]++
+		// NormalizePath
+		steps, ok := refNormalize(names)
+		var ns []string
+		var bsp int
+		if p := catch(func() { ns, bsp = p9p.NormalizePath(names) }); p != "" {
+			viol("normalize-panic", fmt.Sprintf("NormalizePath(%q) panicked: %s", names, p), rp)
+		} else if !ok {
+			if bsp >= 0 {
+				viol("normalize-accepts-separator", fmt.Sprintf("NormalizePath(%q) = %q, %d; a name with a separator must be rejected", names, ns, bsp), rp)
+			}
+		} else {
+			lead := 0
+			for lead < len(steps) && steps[lead] == ".." {
+				lead++
+			}
+			if bsp != lead || strings.Join(ns, "\x00") != strings.Join(steps, "\x00") {
+				viol("normalize", fmt.Sprintf("NormalizePath(%q) = %q, %d; stepwise resolution gives %q, %d", names, ns, bsp, steps, lead), rp)
+			} else {
+				ns2, bsp2 := p9p.NormalizePath(ns)
+				if bsp2 != bsp || strings.Join(ns2, "\x00") != strings.Join(ns, "\x00") {
+					viol("normalize-idempotent", fmt.Sprintf("NormalizePath is not idempotent on %q: %q,%d then %q,%d", names, ns, bsp, ns2, bsp2), rp)
+				}
+				deep := "/q1/q2/q3/q4/q5/q6"
+				r1, _ := refResolve(deep, names)
+				r2, _ := refResolve(deep, ns)
+				if r1 != r2 {
+					viol("normalize-resolution", fmt.Sprintf("from %s, %q resolves to %s but its normal form %q to %s", deep, names, r1, ns, r2), rp)
+				}
+			}
+			local[fmt.Sprintf("normalize/lead%d/len%d", lead, len(steps))]++
+		}
+		// WalkName from every directory
+		for _, dir := range dirs {
+			depth := strings.Count(dir, "/")
+			if dir == "/" {
+				depth = 0
+			}
+			wantOK := want >= 0 && want <= depth
+			var res string
+			var err error
+			if p := catch(func() { res, err = p9p.WalkName(dir, names...) }); p != "" {
+				viol("walkname-panic", fmt.Sprintf("WalkName(%q, %q) panicked: %s", dir, names, p), rp)
+				continue
+			}
+			switch {
+			case wantOK && err != nil:
+				viol("walkname-rejects", fmt.Sprintf("WalkName(%q, %q) rejected a safe list: %v", dir, names, err), rp)
+			case !wantOK && err == nil:
+				viol("walkname-accepts", fmt.Sprintf("WalkName(%q, %q) = %q accepted; the list is invalid or climbs above the root", dir, names, res), rp)
+			case wantOK:
+				exp, _ := refResolve(dir, names)
+				if res != exp || !canonical(res) {
+					viol("walkname-result", fmt.Sprintf("WalkName(%q, %q) = %q, stepwise resolution gives %q", dir, names, res, exp), rp)
+				}
+			}
+			local[fmt.Sprintf("walkname/ok=%v/depth%d", wantOK, depth)]++
+		}
+		// ToWalk on the joined path, relative and absolute
+		for _, abs := range []bool{false, true} {
+			p := strings.Join(names, "/")
+			if abs {
+				p = "/" + p
+			}
+			isAbsWant := strings.HasPrefix(p, "/")
+			els := strings.Split(strings.Trim(p, "/"), "/")
+			st, ok := refNormalize(els)
+			lead := 0
+			for ok && lead < len(st) && st[lead] == ".." {
+				lead++
+			}
+			wantErr := !ok || (isAbsWant && lead != 0)
+			var isAbs bool
+			var got []string
+			var err error
+			if pn := catch(func() { isAbs, got, err = p9p.ToWalk(nil, p) }); pn != "" {
+				viol("towalk-panic", fmt.Sprintf("ToWalk(%q) panicked: %s", p, pn), rp)
+				continue
+			}
+			switch {
+			case wantErr != (err != nil):
+				viol("towalk-accept", fmt.Sprintf("ToWalk(%q) err=%v, want error=%v", p, err, wantErr), rp)
+			case !wantErr && (isAbs != isAbsWant || strings.Join(got, "\x00") != strings.Join(st, "\x00")):
+				viol("towalk-result", fmt.Sprintf("ToWalk(%q) = abs %v steps %q, want abs %v steps %q", p, isAbs, got, isAbsWant, st), rp)
+			}
+			local[fmt.Sprintf("towalk/abs=%v/err=%v", isAbsWant, wantErr)]++
+		}
+	}
 	for L := 0; L <= maxLen; L++ {
 		dims := make([]int, L)
 		for i := range dims {
@@ -110,102 +208,7 @@ func c16(c *core.Ctx) {
 				names[i] = c16Names[idx[i]]
 			}
 			local := map[string]int64{}
-			rp := map[string]any{"names": names}
-			// ValidPath
-			want := refValid(names)
-			var got int
-			if p := catch(func() { got = p9p.ValidPath(names) }); p != "" {
-				viol("validpath-panic", fmt.Sprintf("ValidPath(%q) panicked: %s", names, p), rp)
-			} else if got != want {
-				viol("validpath", fmt.Sprintf("ValidPath(%q) = %d, want %d", names, got, want), rp)
-			}
-			local[fmt.Sprintf("valid/%d", want)]++
-			// NormalizePath
-			steps, ok := refNormalize(names)
-			var ns []string
-			var bsp int
-			if p := catch(func() { ns, bsp = p9p.NormalizePath(names) }); p != "" {
-				viol("normalize-panic", fmt.Sprintf("NormalizePath(%q) panicked: %s", names, p), rp)
-			} else if !ok {
-				if bsp >= 0 {
-					viol("normalize-accepts-separator", fmt.Sprintf("NormalizePath(%q) = %q, %d; a name with a separator must be rejected", names, ns, bsp), rp)
-				}
-			} else {
-				lead := 0
-				for lead < len(steps) && steps[lead] == ".." {
-					lead++
-				}
-				if bsp != lead || strings.Join(ns, "\x00") != strings.Join(steps, "\x00") {
-					viol("normalize", fmt.Sprintf("NormalizePath(%q) = %q, %d; stepwise resolution gives %q, %d", names, ns, bsp, steps, lead), rp)
-				} else {
-					ns2, bsp2 := p9p.NormalizePath(ns)
-					if bsp2 != bsp || strings.Join(ns2, "\x00") != strings.Join(ns, "\x00") {
-						viol("normalize-idempotent", fmt.Sprintf("NormalizePath is not idempotent on %q: %q,%d then %q,%d", names, ns, bsp, ns2, bsp2), rp)
-					}
-					deep := "/q1/q2/q3/q4/q5/q6"
-					r1, _ := refResolve(deep, names)
-					r2, _ := refResolve(deep, ns)
-					if r1 != r2 {
-						viol("normalize-resolution", fmt.Sprintf("from %s, %q resolves to %s but its normal form %q to %s", deep, names, r1, ns, r2), rp)
-					}
-				}
-				local[fmt.Sprintf("normalize/lead%d/len%d", lead, len(steps))]++
-			}
-			// WalkName from every directory
-			for _, dir := range dirs {
-				depth := strings.Count(dir, "/")
-				if dir == "/" {
-					depth = 0
-				}
-				wantOK := want >= 0 && want <= depth
-				var res string
-				var err error
-				if p := catch(func() { res, err = p9p.WalkName(dir, names...) }); p != "" {
-					viol("walkname-panic", fmt.Sprintf("WalkName(%q, %q) panicked: %s", dir, names, p), rp)
-					continue
-				}
-				switch {
-				case wantOK && err != nil:
-					viol("walkname-rejects", fmt.Sprintf("WalkName(%q, %q) rejected a safe list: %v", dir, names, err), rp)
-				case !wantOK && err == nil:
-					viol("walkname-accepts", fmt.Sprintf("WalkName(%q, %q) = %q accepted; the list is invalid or climbs above the root", dir, names, res), rp)
-				case wantOK:
-					exp, _ := refResolve(dir, names)
-					if res != exp || !canonical(res) {
-						viol("walkname-result", fmt.Sprintf("WalkName(%q, %q) = %q, stepwise resolution gives %q", dir, names, res, exp), rp)
-					}
-				}
-				local[fmt.Sprintf("walkname/ok=%v/depth%d", wantOK, depth)]++
-			}
-			// ToWalk on the joined path, relative and absolute
-			for _, abs := range []bool{false, true} {
-				p := strings.Join(names, "/")
-				if abs {
-					p = "/" + p
-				}
-				isAbsWant := strings.HasPrefix(p, "/")
-				els := strings.Split(strings.Trim(p, "/"), "/")
-				st, ok := refNormalize(els)
-				lead := 0
-				for ok && lead < len(st) && st[lead] == ".." {
-					lead++
-				}
-				wantErr := !ok || (isAbsWant && lead != 0)
-				var isAbs bool
-				var got []string
-				var err error
-				if pn := catch(func() { isAbs, got, err = p9p.ToWalk(nil, p) }); pn != "" {
-					viol("towalk-panic", fmt.Sprintf("ToWalk(%q) panicked: %s", p, pn), rp)
-					continue
-				}
-				switch {
-				case wantErr != (err != nil):
-					viol("towalk-accept", fmt.Sprintf("ToWalk(%q) err=%v, want error=%v", p, err, wantErr), rp)
-				case !wantErr && (isAbs != isAbsWant || strings.Join(got, "\x00") != strings.Join(st, "\x00")):
-					viol("towalk-result", fmt.Sprintf("ToWalk(%q) = abs %v steps %q, want abs %v steps %q", p, isAbs, got, isAbsWant, st), rp)
-				}
-				local[fmt.Sprintf("towalk/abs=%v/err=%v", isAbsWant, wantErr)]++
-			}
+			checkList(names, dirs, local)
 			mu.Lock()
 			for k, v := range local {
 				classes[k] += v
@@ -217,6 +220,69 @@ func c16(c *core.Ctx) {
 			c.NotExhaustive(fmt.Sprintf("time budget reached at list length %d", L))
 			break
 		}
+	}
+	// Deep directories and long lists: quantities the cross product above
+	// cannot reach. Directories of depth 4..12 and 16, 17, 33 (plus the
+	// shallow ones); lists of k leading ".." followed by j ordinary names
+	// (k, j <= 18), each also with one special name put at every position;
+	// names of every length 1..70 and around 255 / 4096, multi-byte names.
+	{
+		deepDirs := []string{"/", "/a", "/a/b"}
+		for _, d := range []int{3, 4, 5, 6, 7, 8, 9, 10, 11, 12, 16, 17, 33} {
+			var el []string
+			for i := 0; i < d; i++ {
+				el = append(el, []string{"a", "b", "cc"}[i%3])
+			}
+			deepDirs = append(deepDirs, "/"+strings.Join(el, "/"))
+		}
+		specials := []string{"..", ".", "", "a/b", "a\\b", "...", "..a", "é", "．．"}
+		var lists [][]string
+		for k := 0; k <= 18; k++ {
+			for j := 0; j <= 18; j++ {
+				base := make([]string, 0, k+j+1)
+				for i := 0; i < k; i++ {
+					base = append(base, "..")
+				}
+				for i := 0; i < j; i++ {
+					base = append(base, []string{"a", "b", "cc", "d.e"}[i%4])
+				}
+				lists = append(lists, base)
+				if (k > 6 && k != 16 && k != 17) || (j > 6 && j != 16 && j != 17) {
+					continue
+				}
+				for pos := 0; pos <= len(base); pos++ {
+					for _, sp := range specials {
+						l := append(append(append([]string{}, base[:pos]...), sp), base[pos:]...)
+						lists = append(lists, l)
+					}
+				}
+			}
+		}
+		for n := 1; n <= 70; n++ {
+			lists = append(lists, []string{strings.Repeat("n", n)}, []string{"..", strings.Repeat(".", n)}, []string{"a", strings.Repeat("x", n), "b"})
+		}
+		for _, n := range []int{127, 128, 254, 255, 256, 257, 4095, 4096, 4097, 65535, 65536} {
+			lists = append(lists, []string{strings.Repeat("n", n)}, []string{"..", strings.Repeat("m", n), "a"})
+		}
+		var wg sync.WaitGroup
+		nw := runtime.NumCPU()
+		for w := 0; w < nw; w++ {
+			wg.Add(1)
+			go func(w int) {
+				defer wg.Done()
+				local := map[string]int64{}
+				for i := w; i < len(lists); i += nw {
+					checkList(lists[i], deepDirs, local)
+				}
+				mu.Lock()
+				for k, v := range local {
+					classes["deep:"+k] += v
+				}
+				mu.Unlock()
+			}(w)
+		}
+		wg.Wait()
+		c.Count(int64(len(lists))*int64(3+len(deepDirs)), 0, 0, 0)
 	}
 	// CreateName: every directory x every name (plus long and NUL names)
 	names := append(append([]string{}, c16Names...), "x\x00y", strings.Repeat("n", 300), "a/..", "../a", "\\")
